@@ -1,6 +1,7 @@
 package checks
 
 import (
+	"os"
 	"encoding/json"
 	"fmt"
 	"testing"
@@ -42,7 +43,7 @@ var c01Variants = []c01Variant{
 
 func c01Gen(t *rapid.T) c01Case {
 	var c c01Case
-	v := rapid.SampledFrom(shardPick(c01Variants, 3)).Draw(t, "variant")
+	v := rapid.SampledFrom(shardPick(c01Variants, 2)).Draw(t, "variant") // plus the backlog fixture below: three proxies per shard
 	c.Cfg, c.Gap = v.Cfg, v.Gap
 	small := c.Cfg.MaxLen > 0
 	o := pipeOpts{MaxReqs: 40, Local: true, Quit: true, Rejected: true, Multi: true, Password: c.Cfg.Password, HoldPct: 60}
@@ -75,6 +76,15 @@ func c01Gen(t *rapid.T) c01Case {
 		c.Spec.Clients = []ClientSpec{cs}
 		c.Spec.Schedule = []int{0}
 		c.Spec.HoldMs = 250
+		return c
+	}
+	if rapid.IntRange(0, 15).Draw(t, "backlog") == 0 {
+		// a client that lets megabytes of replies pile up, reads part of them, and then sends requests the proxy
+		// answers itself (or further GETs): the new reply must come after everything still buffered
+		c.Cfg, c.Gap = sut.Config{ServerConns: 1, SndBuf: 4096}, false
+		cs, plans := genPhased(t, true)
+		c.Spec.Clients = []ClientSpec{cs}
+		c.Spec.Plans = plans
 		return c
 	}
 	nc := rapid.IntRange(1, 4).Draw(t, "nclients")
@@ -132,6 +142,10 @@ func c01Classify(c *c01Case) (bool, []string) {
 		nt = true
 		cls = append(cls, "deep-pipeline-behind-held-head")
 	}
+	if len(c.Spec.Clients) == 1 && len(c.Spec.Clients[0].Phases) > 1 {
+		nt = true
+		cls = append(cls, "backlog-read-in-part-then-more-requests")
+	}
 	cls = append(cls, fmt.Sprintf("clients-%d", len(c.Spec.Clients)), fmt.Sprintf("sconns-%d", c.Cfg.ServerConns))
 	return nt, dedup(cls)
 }
@@ -142,7 +156,17 @@ func c01Exec(c *c01Case) []Discrepancy {
 		variant = "gap"
 	}
 	f := getFixtureV("C01", c.Cfg, 3, 0, variant)
-	ds := pipeRunCompare("C01", f, &c.Cfg, &c.Spec, 25*time.Millisecond)
+	var ds []Discrepancy
+	if len(c.Spec.Clients) == 1 && len(c.Spec.Clients[0].Phases) > 0 {
+		rc := &refCtx{Password: c.Cfg.Password, MaxLen: c.Cfg.MaxLen, Owners: f.Owners}
+		exp := expectedFor(&c.Spec.Clients[0], indexPlans(&c.Spec), rc)
+		res := runPhased(f, &c.Spec, len(exp))
+		if ds = f.checkAlive("C01", nil); len(ds) == 0 {
+			ds = compareReplies("C01", 0, &res.Clients[0], exp, ds)
+		}
+	} else {
+		ds = pipeRunCompare("C01", f, &c.Cfg, &c.Spec, 25*time.Millisecond)
+	}
 	if len(ds) > 0 {
 		dropFixture(f)
 	}
@@ -162,6 +186,16 @@ func pipeRunCompare(prop string, f *Fixture, cfg *sut.Config, spec *PipeSpec, qu
 	}
 	res := runPipesQuiet(f, spec, want, 8*time.Second, quiet, exps)
 	f.LastLog = res.Log
+	if os.Getenv("VERIF_DUMP_LOG") != "" {
+		for _, lr := range res.Log {
+			fmt.Printf("    backend log: node %d conn %d asking=%v %s\n", lr.Node, lr.Conn, lr.Asking, q(lr.Raw))
+		}
+		for i := range res.Clients {
+			for j, r := range res.Clients[i].Replies {
+				fmt.Printf("    client %d reply %d: %s\n", i, j+1, q(r))
+			}
+		}
+	}
 	var ds []Discrepancy
 	ds = f.checkAlive(prop, ds)
 	if len(ds) > 0 {
